@@ -390,11 +390,20 @@ fn verify_rebuild(source_path: &Path, target_path: &Path, options: &RebuildOptio
         expected_files.push(&file.name);
     }
 
-    if target_files.len() != expected_files.len() {
+    // The rebuilt archive regenerates (listfile) and (attributes) and lists them itself,
+    // whether or not the source listed them, so they do not take part in the count
+    let is_generated = |name: &str| name == "(listfile)" || name == "(attributes)";
+    let expected_count = expected_files
+        .iter()
+        .filter(|name| !is_generated(name))
+        .count();
+    let target_count = target_files
+        .iter()
+        .filter(|file| !is_generated(&file.name))
+        .count();
+    if target_count != expected_count {
         return Err(Error::invalid_format(format!(
-            "File count mismatch: expected {}, got {}",
-            expected_files.len(),
-            target_files.len()
+            "File count mismatch: expected {expected_count}, got {target_count}"
         )));
     }
 
